@@ -62,7 +62,8 @@ impl Qcow2Info {
                     (b, s >> b)
                 }
                 None => {
-                    let bits = 12_u8;
+                    // 4K slice by default, but one slice can't be bigger than cluster
+                    let bits = std::cmp::max(std::cmp::min(12_u8, cluster_shift), bs_bits);
                     let cnt = std::cmp::max(default_bytes >> bits, 2);
 
                     (bits, cnt)
